@@ -294,4 +294,31 @@ def run(prog: Program, chk: Check):
                   fkey(runf, "refreshed-before-servicing"), where(runf), "the poll runs before process_message in every round that services frames",
                   "frames can be serviced in a round whose wlist was not refreshed (or the poll is skipped under an extra condition)")
 
+    # ---- R8 both header layouts: the manager never hard-codes a header class --------------------------------------------------
+    R8 = chk.rule("C01-R8", "manager.py builds, sizes and views headers only through the configured header class (plain or timecode)", 3,
+                  "a hard-coded MessageHeader truncates / mis-frames every message when the timecode layout is in use")
+    mmod = prog.module(MGR)
+    hard = []
+    for f in mmod.functions.values():
+        for n in walk_local(f.node):
+            if isinstance(n, ast.Call):
+                fn = n.func
+                tgt = fn.value if isinstance(fn, ast.Attribute) and fn.attr in ("from_buffer", "from_buffer_copy", "from_bytes") else fn
+                if isinstance(tgt, ast.Name) and tgt.id in ("MessageHeader", "TimeCodeMessageHeader"):
+                    hard.append((f, n))
+                if norm(fn) in ("ctypes.sizeof", "sizeof") and n.args and isinstance(n.args[0], ast.Name) and n.args[0].id in ("MessageHeader", "TimeCodeMessageHeader"):
+                    hard.append((f, n))
+    R8.decide(not hard, f"{MGR}|no-hard-coded-header-class", mmod.rel, "no construction / view / sizeof of a fixed header class",
+              "manager.py hard-codes a header class: " + "; ".join(f"{f.qual}: {norm(n)[:50]}" for f, n in hard[:3]))
+    init = prog.func(MGR, "MessageManager.__init__")
+    sz = [n for n in walk_local(init.node) if isinstance(n, ast.Assign) and norm(n.targets[0]) == "self.header_size"]
+    R8.decide(len(sz) == 1 and norm(sz[0].value) == "ctypes.sizeof(self.header_cls)", fkey(init, "header_size"), where(init), "header_size = sizeof(configured header class)",
+              "self.header_size is not ctypes.sizeof(self.header_cls)")
+    rdm = prog.func(MGR, "MessageManager.read_message")
+    hrd = [c for c in calls_in(rdm.node) if is_method_call(c, "recv_into") and c.args and norm(c.args[0]) in ("self.header_buffer", "self.header_view")]
+    R8.decide(len(hrd) == 1 and len(hrd[0].args) >= 2 and norm(hrd[0].args[1]) == "self.header_size" and any(norm(a).endswith("MSG_WAITALL") for a in hrd[0].args), fkey(rdm, "header-read-size"), where(rdm),
+              "the header read requests exactly header_size bytes (MSG_WAITALL)", "read_message does not read exactly self.header_size header bytes")
+    hbuf = [n for n in walk_local(init.node) if isinstance(n, ast.Assign) and norm(n.targets[0]) == "self.header_buffer"]
+    R8.decide(len(hbuf) == 1 and norm(hbuf[0].value) == "bytearray(self.header_size)", fkey(init, "header_buffer"), where(init), "header receive buffer has header_size bytes", "header receive buffer is not bytearray(self.header_size)")
+
     chk.units.update({"recipient_send_sites": len(sends), "range_gated_sites": len(targets), "dispatch_types": sorted(d.types)})
